@@ -36,6 +36,7 @@ func runC06(p *Program, r *Report) {
 	}
 	checkThreadedState(p, r, "R06a", entries, 8)
 	checkRollbackPerAddition(p, r, "R06e")
+	checkMadeProofIsFilled(p, r, "R06f", entries)
 }
 
 // returnsUpdatedParam: result ri of fn has the slice type of parameter pi and
@@ -352,7 +353,8 @@ func init() {
 			"undo-one-addition function every removal of a node is followed on all paths by the removal of its hash from the leaf index. R06c - where undo moves a node back " +
 			"(delete at one position, put at another) the put happens on every path that deletes. R06d (E7) - the targets of the undone block are used in the layout of the " +
 			"forest before the block (TreeRows(NumLeaves - numAdds) while the additions are still counted), and hashes are paired with positions in one order class. R06e - each " +
-			"forest's Undo runs its undo-one-addition step, which decrements the leaf count on every success path, on every iteration of a loop bounded by the block's number of additions.",
+			"forest's Undo runs its undo-one-addition step, which decrements the leaf count on every success path, on every iteration of a loop bounded by the block's number of additions. " +
+			"R06f - a list of hashes the undo allocates itself and hands to the hashing core as proof hashes is assigned element-wise in between.",
 		NotDecided: "that roots, positions, stored nodes, cached leaves and proofs after Undo equal those before the block; undo depth; redo; the selection of which previously empty " +
 			"roots were written over (a numerical intersection of position lists).",
 		Rules: []RuleDef{
@@ -688,4 +690,84 @@ func checkEmptyForestHasNoPositions(p *Program, r *Report, rule string, e *ssa.F
 		}
 	}
 	r.Floor(rule, "existence decisions with an inexact test in the cached-proof undo", n, 1)
+}
+
+// ---------------------------------------------------------------------------
+// R06f MADE-PROOF-IS-FILLED. A full forest that is undone with a targets-only
+// proof builds the proof hashes itself: it allocates a zeroed list and fills it
+// from the node store. The hashing core treats a zero hash as "subtree gone",
+// so a freshly made []Hash that reaches the core's proof argument has to be
+// written element-wise on the way; otherwise every ancestor of the restored
+// targets is recomputed from empty siblings.
+
+func checkMadeProofIsFilled(p *Program, r *Report, rule string, entries []*ssa.Function) {
+	r.Rule(rule, "MADE-PROOF-IS-FILLED: in the undo closure a list of hashes allocated with make and handed to the hashing core as proof hashes is assigned element-wise in between (a zeroed proof makes the core treat every sibling as deleted)")
+	core := resolveVerifyAnchors(p).core
+	reach := p.StaticReach(entries...)
+	for _, e := range entries {
+		reach[e] = true
+	}
+	n := 0
+	for _, g := range sortedFuncs(p, reach) {
+		if g.Blocks == nil || !p.owns(g) {
+			continue
+		}
+		for _, b := range g.Blocks {
+			for _, in := range b.Instrs {
+				st, ok := in.(*ssa.Store)
+				if !ok {
+					continue
+				}
+				mk, ok := st.Val.(*ssa.MakeSlice)
+				if !ok || !isHashSlice(mk.Type()) {
+					continue
+				}
+				fa, ok := st.Addr.(*ssa.FieldAddr)
+				if !ok || !p.localNamed(deref(fa.X.Type()), "Proof") {
+					continue
+				}
+				// does that Proof value reach the core?
+				toCore := false
+				for _, sc := range callsIn(p, g) {
+					if sc.call.Common().StaticCallee() != core {
+						continue
+					}
+					for _, a := range sc.call.Common().Args {
+						if u, ok := a.(*ssa.UnOp); ok && u.X == fa.X {
+							toCore = true
+						}
+					}
+				}
+				if !toCore {
+					continue
+				}
+				n++
+				key := fmt.Sprintf("%s/made-proof#%d", p.FuncName(g), n)
+				filled := false
+				for _, bb := range g.Blocks {
+					for _, in2 := range bb.Instrs {
+						es, ok := in2.(*ssa.Store)
+						if !ok {
+							continue
+						}
+						ia, ok := es.Addr.(*ssa.IndexAddr)
+						if !ok {
+							continue
+						}
+						if u, ok := ia.X.(*ssa.UnOp); ok {
+							if fa2, ok := u.X.(*ssa.FieldAddr); ok && fa2.X == fa.X && fa2.Field == fa.Field {
+								filled = true
+							}
+						}
+					}
+				}
+				if filled {
+					r.Discharge(rule, key, posOf(p, st), "the made list is assigned element-wise before it reaches the hashing core", true)
+				} else {
+					r.Violate(rule, key, posOf(p, st), "a list of hashes made with make (all zero) is handed to the hashing core as proof hashes and never assigned in between: the core takes a zero sibling as a deleted subtree, so the ancestors of the restored targets are recomputed from nothing", "in "+p.FuncName(g))
+				}
+			}
+		}
+	}
+	r.Floor(rule, "made proof-hash lists that reach the core", n, 1)
 }
